@@ -53,6 +53,10 @@ fn parse_ents(s: &str) -> Vec<Entry> {
 }
 
 fn ack_str(r: &AppendEntriesResponse) -> String {
+    format!("{}@{}", ack_body(r), r.term)
+}
+
+fn ack_body(r: &AppendEntriesResponse) -> String {
     match &r.result {
         Some(ArRes::Success(s)) => {
             let lm = s.last_match.unwrap_or_default();
